@@ -29,7 +29,8 @@ Queries == << <<"cholesky", "lower", "LLt", TRUE>>, <<"cholesky", "upper", "RtR"
               <<"root_decomposition", "pivoted_cholesky", "RRt", TRUE>>, <<"root_decomposition", "diagonalization", "RRt", TRUE>>,
               <<"root_inv_decomposition", "none", "RRtInv", TRUE>>, <<"root_inv_decomposition", "cholesky", "RRtInv", TRUE>>,
               <<"root_inv_decomposition", "symeig", "RRtInv", TRUE>>, <<"root_inv_decomposition", "lanczos", "RRtInv", FALSE>>,
-              <<"root_inv_decomposition", "pinverse", "RRtInv", TRUE>>,
+              <<"root_inv_decomposition", "pinverse", "RRtInv", TRUE>>, <<"root_inv_decomposition", "diagonalization", "RRtInv", TRUE>>,
+              <<"root_inv_decomposition", "svd", "RRtInv", TRUE>>, <<"root_decomposition", "svd", "RRt", TRUE>>,
               \* a factorization queried after the same factorization of a derived operator that shares this one (K.add_jitter(c).svd(), then K.svd())
               <<"svd_after_jitter_svd", "none", "svd", TRUE>>, <<"eigh_after_jitter_eigh", "none", "eig", TRUE>>,
               <<"eigh", "none", "eig", TRUE>>, <<"linalg_eigh", "none", "eig", TRUE>>, <<"eigvalsh", "none", "eigvals", TRUE>>,
